@@ -478,3 +478,16 @@ Fixpoint select {A} (flags : list bool) (xs : list A) : list A :=
 (* the batch the loop forms out of the marshalled (signed) transactions *)
 Definition batch_of (txs : list (bytes * bool)) : list bytes :=
   select (batch_loop 0 (map (fun e => (len (fst e), snd e)) txs)) (map fst txs).
+
+(* ---- sizes ------------------------------------------------------------------------------ *)
+
+(* length of a bundle message over transactions of the given marshalled sizes:
+   type byte, count byte, then a 4-byte length in front of every transaction *)
+Fixpoint sum_sizes (l : list Z) : Z := match l with [] => 0 | x :: r => 4 + x + sum_sizes r end.
+Definition txs_msg_len (sizes : list Z) : Z := 1 + 1 + sum_sizes sizes.
+
+(* length of the relay wrapper around an n-byte message; buildRelayMessage panics above the maximum *)
+Definition relay_len (n : Z) : res Z := if max_size <? n then Panic else Ok (relay_header + n).
+
+(* Send accepts exactly 1..max bytes *)
+Definition send_accepts (n : Z) : bool := negb ((n <? 1) || (max_size <? n)).
